@@ -1,6 +1,7 @@
 """C19 - unresolvable JSON type tags fail with the documented serialisation errors only.
 
-IR: {"tag": <json value or {"absent": true}>, "payload": {...}}. Tags that resolve to a
+IR: {"tag": <json value or {"absent": true}>, "payload": {...}, "warm": [names of classes deserialised successfully
+before, in the same process]}. Tags that resolve to a
 deserialisable class are outside the property and are rejected by the harness precondition.
 Oracle: from_json raises an instance of JSONSerializationError; nothing else escapes, nothing is returned.
 """
@@ -43,6 +44,7 @@ RESOLVING = [  # module.attribute pairs that exist, by kind of attribute
     "math.pi", "os.sep", "kverif.models.json_tree.AN_INSTANCE", "krrood.adapters.json_serializer.leaf_types",
     "kverif.models.json_tree.CLASSES", "os.__name__", "os.__dict__", "kverif.models.json_tree._reg",
 ]
+WARM = ["Node0", "Node1", "Node3", "Leaf", "Pair", "Decimal", "Fraction", "UUID", "datetime", "Celsius"]
 JUNK = ["zz_nomod_a", "zz_nomod_b.c", "NoSuchClass", "x", "_", "0", "class", "é", "a b"]
 PINNED = {  # the four cases the repository's tests pin
     "NotAQualifiedName": "InvalidTypeFormatError",
@@ -75,6 +77,20 @@ def resolves_to_deserialisable(tag) -> bool:
     return obj in JSONSerializableTypeRegistry()._deserializers
 
 
+def warm_value(name):
+    import datetime
+    import decimal
+    import fractions
+    import uuid
+
+    from ..models import json_tree as jt
+
+    if name in jt.CLASSES:
+        return jt.CLASSES[name]()
+    return {"Decimal": decimal.Decimal("1.5"), "Fraction": fractions.Fraction(1, 3), "UUID": uuid.UUID(int=7),
+            "datetime": datetime.datetime(2020, 1, 2), "Celsius": jt.Celsius(3)}[name]
+
+
 class C19(Check):
     id = "C19"
     title = "Unresolvable JSON type tags fail with the documented serialisation errors only"
@@ -83,7 +99,9 @@ class C19(Check):
         "floats, bools, None, lists, dicts, empty string) or a string from a grammar: curated importable "
         "modules x attribute kinds (function, sub-module, generic alias, type variable, non-serialisable class, "
         "instance, dunder), junk names, dot patterns (leading/trailing/double/only dots, whitespace), a module "
-        "whose import raises ImportError; also the tag key absent. Oracle: from_json raises a "
+        "whose import raises ImportError; also the tag key absent; each call optionally preceded, in the same process, "
+        "by 0-3 successful deserialisations of harness classes / registered types whose names also occur as last "
+        "tag components under wrong modules. Oracle: from_json raises a "
         "JSONSerializationError subclass; the four cases pinned by the repository tests keep their class. "
         "Non-trivial: the tag is a non-empty string or a truthy non-string (passes the first resolution step). "
         "Distinct = distinct IR."
@@ -102,7 +120,7 @@ class C19(Check):
         from ..models import json_tree  # noqa: F401
 
     def strategy(self, tier, exclude):
-        ident = st.one_of(st.sampled_from(ATTRS), st.sampled_from(JUNK), st.sampled_from(MODULES),
+        ident = st.one_of(st.sampled_from(ATTRS), st.sampled_from(JUNK), st.sampled_from(MODULES), st.sampled_from(WARM),
                           st.text(alphabet="ab_Z9. \té", min_size=0, max_size=4))
         modname = st.one_of(st.sampled_from(MODULES), st.sampled_from(JUNK),
                             st.just("kverif.models.broken_import_module"),
@@ -123,7 +141,8 @@ class C19(Check):
                              max_leaves=4)
         tag = st.one_of(strings, strings, jsonv, scalars, st.just({"absent": True}))
         payload = st.dictionaries(st.sampled_from(["x", "y", "value", "name"]), scalars, max_size=3)
-        return st.tuples(tag, payload).map(lambda p: dict(tag=p[0], payload=p[1]))
+        warm = st.one_of(st.just([]), st.lists(st.sampled_from(WARM), max_size=3))
+        return st.tuples(tag, payload, warm).map(lambda p: dict(tag=p[0], payload=p[1], warm=p[2]))
 
     def run(self, ir) -> Outcome:
         from krrood.adapters import json_serializer as js
@@ -155,6 +174,19 @@ class C19(Check):
             if "broken_import_module" in tag:
                 classes.append("module_raises_ImportError")
         nontrivial = (isinstance(tag, str) and tag != "") or (not isinstance(tag, str) and not absent and bool(tag))
+        warm = ir.get("warm") or []
+        if warm:
+            classes.append("after_successful_deserialisations")
+            if isinstance(tag, str) and tag.rpartition(".")[2] in warm:
+                classes.append("last_component_names_class_deserialised_before")
+            try:
+                for name in warm:
+                    value = warm_value(name)
+                    back = js.from_json(js.to_json(value))
+                    if type(back) is not type(value):
+                        return Outcome(rejected=True)  # C18's subject
+            except Exception:
+                return Outcome(rejected=True)
         try:
             res = js.from_json(data)
         except js.JSONSerializationError as exc:
